@@ -204,6 +204,12 @@ def main(chk):
         continue
       if case['edit'] == 'none' and canon(out) != before:
         chk.violation(key, f'from_state_dict(t, to_state_dict(t)) != t: {str(canon(out))[:200]} vs {str(before)[:200]}', case)
+      # ... and as a pytree: same tree structure (container types all the way down), so that tree_map(f, t, restored) works
+      if case['edit'] == 'none':
+        import jax
+        if jax.tree_util.tree_structure(out) != jax.tree_util.tree_structure(target):
+          chk.violation(key + ':treedef', f'the restored tree has another pytree structure than the target: {jax.tree_util.tree_structure(out)} vs '
+                                          f'{jax.tree_util.tree_structure(target)}', case)
       if case['edit'] == 'add' and canon(out) != before:
         chk.violation(key, 'a surplus state entry changed the restored tree', case)
       # bytes round trip under a rotating chunk threshold; result must not depend on it
